@@ -441,6 +441,15 @@ func (h *harness) summary() *result {
 		}
 		return x.begin < to && (x.end == 0 || x.end > from)
 	}
+	// how the bus was built (coverage only; every oracle applies to both constructions alike)
+	if h.tracer == nil {
+		h.label("bus:plain")
+	} else {
+		h.label("bus:metrics-tracer")
+		if h.tracer.queued.Load() > 0 {
+			h.label("bus:metrics-tracer:told-of-a-queued-event")
+		}
+	}
 	for _, s := range h.subs {
 		if s.subRet == 0 {
 			continue
@@ -449,6 +458,9 @@ func (h *harness) summary() *result {
 		h.label(fmt.Sprintf("buf:%d", s.spec.Buf))
 		if len(s.reads) > 0 {
 			h.label("events-received")
+			if h.tracer != nil {
+				h.label(fmt.Sprintf("bus:metrics-tracer:events-received-by:%s/buf:%d", s.spec.Kind, s.spec.Buf))
+			}
 		}
 		for _, x := range h.all {
 			if !s.matches(x.typ) || (x.end != 0 && x.err != nil) {
